@@ -22,7 +22,7 @@ From Coq Require Import List ZArith Lia Bool.
 Import ListNotations.
 From Coq Require Import ZifyBool.
 From KV Require Import Base.Prelude Gen.Consts Model.Codecs Model.Requests Model.Responses
-                       Model.ClientState Model.Net Model.Client Model.Consumer.
+                       Model.ClientState Model.Net Model.Client Model.Producer Model.Consumer.
 From KV Require Import Proofs.BytesFacts Proofs.NetFacts.
 From KV Require Import Proofs.C20Facts Proofs.C20Extra Proofs.C20Extra2 Proofs.C20ExtraB Proofs.C20ExtraC.
 Local Open Scope Z_scope.
@@ -205,7 +205,25 @@ Proof.
     split; [exact Hl|]. split; [exact (proj2 (C20_load_all_wire _ _ _ Hl))|]. apply Hfin.
 Qed.
 
+(* ---- Producer creation from a handed-in client (Producer::from_client): nothing is performed at all ---- *)
+Theorem C20_producer_create_from_client_silent : forall (c : client) (calls : list pbuilder_call) (x : st) (r : res producer) (x' : st),
+  producer_create (inr c) calls x = (r, x') ->
+  script x' = script x /\ trace x' = trace x /\ performed x x' = [] /\ cs (cl x') = cs (cl x).
+Proof.
+  intros c calls x r x' H. unfold producer_create in H.
+  unfold mbind at 1, get_client at 1 in H. unfold mbind at 1, set_client at 1 in H.
+  assert (Hp : forall y, script y = script x -> trace y = trace x -> cs (cl y) = cs (cl x) ->
+                         script y = script x /\ trace y = trace x /\ performed x y = [] /\ cs (cl y) = cs (cl x)).
+  { intros y Hs Ht Hc. repeat split; try assumption. unfold performed. rewrite Ht, Nat.sub_diag. reflexivity. }
+  bind_inv H t s1 H1 H2.
+  - unfold lift in H1. injection H1 as _ <-. unfold mbind, ret, get_client in H2. injection H2 as _ <-.
+    apply Hp; reflexivity.
+  - unfold lift in H1. injection H1 as _ <-. apply Hp; reflexivity.
+  - unfold lift in H1. injection H1 as _ <-. apply Hp; reflexivity.
+Qed.
+
 Print Assumptions C20_create_from_client_wire.
+Print Assumptions C20_producer_create_from_client_silent.
 Print Assumptions C20_create_from_hosts_wire.
 Print Assumptions C20_create_from_client_keeps_topics.
 Print Assumptions C20_create_from_client_no_metadata.
@@ -229,4 +247,9 @@ Example C20_create_from_hosts_ex :
   let x := c20_st 1 in
   let '(r, x') := consumer_create (inl [tag "h0:9092"]) [CWithTopic (tag "t2")] x in
   length (performed x x') = 3%nat /\ is_ok r = false.
+Proof. vm_compute. split; reflexivity. Qed.
+
+Example C20_producer_create_from_client_ex :
+  let x := c20_st 1 in
+  let '(r, x') := producer_create (inr (c20_client 1)) [] x in is_ok r = true /\ script x' = script x.
 Proof. vm_compute. split; reflexivity. Qed.
